@@ -41,6 +41,99 @@ def parse_desc(desc):
     return cases
 
 
+def sig_valid(sig):
+    """a variant's signature: at most 255 bytes, at most 32 nested arrays and 32 nested structs"""
+    if len(sig) > 255:
+        return False
+    depth_a = depth_s = 0
+    stack = []          # open brackets; pending array prefixes are counted until their element ends
+    arrays = 0          # arrays whose element type is being read
+    # walk: every 'a' opens an array level that closes when its single element type is complete
+    def walk(i, a, st):
+        c = sig[i]
+        if c == "a":
+            if a + 1 > 32:
+                raise ValueError
+            if sig[i + 1] == "{":
+                j = walk(i + 3, a + 1, st)      # key is one basic char
+                return j + 1                    # the closing brace
+            return walk(i + 1, a + 1, st)
+        if c == "(":
+            if st + 1 > 32:
+                raise ValueError
+            j = i + 1
+            while sig[j] != ")":
+                j = walk(j, a, st + 1)
+            return j + 1
+        return i + 1
+    try:
+        i = 0
+        while i < len(sig):
+            i = walk(i, 0, 0)
+        return True
+    except ValueError:
+        return False
+
+
+def parse_kind(kind):
+    """container kind (E at the enum leaves) -> tree with ('E',) leaves"""
+    pos = [0]
+
+    def one():
+        c = kind[pos[0]]
+        pos[0] += 1
+        if c == "E":
+            return ("E",)
+        if c == "a":
+            if kind[pos[0]] == "{":
+                k = kind[pos[0] + 1]
+                pos[0] += 2
+                v = one()
+                pos[0] += 1
+                return ("e", k, v)
+            return ("a", one())
+        if c in "(<":
+            close = ")" if c == "(" else ">"
+            fs = []
+            while kind[pos[0]] != close:
+                fs.append(one())
+            pos[0] += 1
+            return ("r", fs)
+        return ("b", c)
+    return one()
+
+
+def kind_erased(t):
+    return "v" if t[0] == "E" else (t[1] if t[0] == "b" else "a" + kind_erased(t[1]) if t[0] == "a"
+                                   else "a{" + t[1] + kind_erased(t[2]) + "}" if t[0] == "e"
+                                   else "(" + "".join(kind_erased(x) for x in t[1]) + ")")
+
+
+def gen_container(r, t, cases):
+    k = t[0]
+    if k == "E":
+        _, ty = r.choice(cases)
+        return ["v", erased(ty)] + gen_value(r, ty)
+    if k == "b":
+        return wg.gen_base(r, t[1])
+    if k == "a":
+        n = r.choice((0, 1, 1, 2, 2, 3))
+        out = ["a", kind_erased(t[1]), str(n)]
+        for _ in range(n):
+            out += gen_container(r, t[1], cases)
+        return out
+    if k == "e":
+        n = r.choice((0, 1, 1))
+        out = ["e", t[1], kind_erased(t[2]), str(n)]
+        for _ in range(n):
+            out += wg.gen_base(r, t[1]) + gen_container(r, t[2], cases)
+        return out
+    out = ["r", str(len(t[1]))]
+    for f in t[1]:
+        out += gen_container(r, f, cases)
+    return out
+
+
 # maps get at most one entry: two HashMap instances holding the same entries may iterate in different orders, which
 # would make byte-for-byte comparison between APIs meaningless (entry order is covered by C01/C02)
 def gen_value(r, name, sizes=(0, 1, 1, 2, 2, 3)):
@@ -75,23 +168,27 @@ def canon_field(v):
 
 
 ST_ENC, ST_DEC = "TDPCR", "TDPX"
-EN_ENC, EN_DEC = "VDSMPCR", "VDSMPX"
+EN_ENC, EN_DEC = "VWDSMPCR", "VDSMPX"
 
 
 def expected_from_model(case, mline):
     """the model has one Param API: the conversion (C) and borrowed (R) ways of building the tree are P, reading a
     decoded Param through the conversion API (X) is get_param"""
     m, _ = fields(mline)
+    if case["op"] == "EC":
+        return m
     if case["op"] not in ("ST", "EN"):
         return m
     decs = ST_DEC if case["op"] == "ST" else EN_DEC
     encs = ST_ENC if case["op"] == "ST" else EN_ENC
-    for a in "CR":
-        if "enc:P" in m:
-            m["enc:" + a] = m["enc:P"]
+    for a, src in (("C", "P"), ("R", "P"), ("W", "V")):      # W = push_variant: marshal_as_variant, like the Variant wrapper
+        if a not in encs:
+            continue
+        if "enc:" + src in m:
+            m["enc:" + a] = m["enc:" + src]
         for b in decs:
-            if "dec:P" + b in m:
-                m["dec:%s%s" % (a, b)] = m["dec:P" + b]
+            if "dec:" + src + b in m:
+                m["dec:%s%s" % (a, b)] = m["dec:" + src + b]
     for a in encs:
         if "dec:%sP" % a in m:
             m["dec:%sX" % a] = m["dec:%sP" % a]
@@ -101,7 +198,11 @@ def expected_from_model(case, mline):
 def agrees(case, li, lm):
     d, _ = fields(li)
     m = expected_from_model(case, lm)
-    keys = [k for k in d if not k.startswith("sigs:")]
+    keys = [k for k in d if not k.startswith("sigs:") and not k.startswith("valid:")]
+    if case["op"] == "EC":
+        # the harness has no dbus_variant_var! / params::Variant flavour of the derived-struct kind
+        avail = {k[4:] for k in d if k.startswith("enc:")}
+        m = {k: v for k, v in m.items() if set(k.split(":")[1]) <= avail}
     if sorted(keys) != sorted(m):
         return False
     return all(canon_field(d[k]) == canon_field(m[k]) for k in keys)
@@ -172,13 +273,14 @@ def predicate(case, line):
         for a in "CR":
             if d.get("sigs:" + a) != "v/" + csig:
                 return "Param::make_signature / sig() / Type::from(&Param) of the variant built by %s: %s" % (a, d.get("sigs:" + a))
-        if len(csig) > 255:
-            # a variant's signature has at most 255 bytes: every API refuses, and leaves the body as it was
+        if not sig_valid(csig):
+            # a variant's signature has at most 255 bytes and 32 array / 32 struct levels: every API refuses, and
+            # leaves the body as it was
             untouched = "err,%s,%s" % (("y" * case["prefix"]).encode().hex() or "-",
                                        bytes((i * 37 + 1) % 256 for i in range(case["prefix"])).hex() or "-")
             for a, e in zip(EN_ENC, encs):
                 if e.startswith("ok,"):
-                    return "API %s marshalled a variant whose signature has %d bytes" % (a, len(csig))
+                    return "API %s marshalled a variant whose signature the protocol forbids (%d bytes: %s...)" % (a, len(csig), csig[:40])
                 if e != untouched:
                     return "API %s refused the over-long variant signature but left something in the body" % a
             return None
@@ -230,6 +332,33 @@ def predicate(case, line):
             if who == "M" and (not got[4].startswith("ok_") or canon_toks(got[4][3:]) != wg.canon(" ".join(case["toks"]))):
                 return "the Variant held by dbus_variant_var!'s Catchall does not give back the value"
         return None
+    if kind == "EC":
+        t = parse_kind(case["kind"])
+        sig = ("y" * case["prefix"] + kind_erased(t)).encode().hex()
+        avail = [k[4:] for k in d if k.startswith("enc:")]
+        need = "DSP" if case["kind"].startswith("<") else "DSMQP"
+        if sorted(avail) != sorted(need):
+            return "container scenario: encoders %s, expected %s" % ("".join(avail), need)
+        encs = [d["enc:" + a] for a in avail]
+        for a, e in zip(avail, encs):
+            if not e.startswith("ok,"):
+                return "container of enums: API %s refused a value of the common sub-language" % a
+            if e.split(",")[1] != sig:
+                return "container of enums: API %s produced signature %s" % (a, e.split(",")[1])
+            if d.get("valid:" + a) != "true":
+                return "the body marshalled by API %s fails the crate's own validate()" % a
+        if len(set(encs)) != 1:
+            return "a container of enum values and the same container of variants were marshalled to different bytes"
+        for a in avail:
+            for b in avail:
+                got = d.get("dec:%s%s" % (a, b), "missing").split(",")
+                if got[0] != "ok":
+                    return "container of enums: encoding by %s not decoded by %s: %s" % (a, b, got[0])
+                if got[1] != "t1":
+                    return "container of enums: decoding by %s of the encoding by %s did not consume exactly the value" % (b, a)
+                if canon_toks(got[2]) != want:
+                    return "container of enums: decoding by %s of the encoding by %s gives a different value" % (b, a)
+        return None
     if kind == "CV":
         tag, payload = case["toks"]
         names = {"y": ("u8", "byte"), "b": ("bool", "bool"), "n": ("i16", "i16"), "q": ("u16", "u16"), "i": ("i32", "i32"),
@@ -266,6 +395,8 @@ def impl_line(c):
         return "CV %s %s" % (c["mode"], " ".join(c["toks"]))
     if c["op"] == "CF":
         return "CF"
+    if c["op"] == "EC":
+        return "EC %s %s %d %s" % (c["kind"], c["bo"], c["prefix"], " ".join(c["toks"]))
     if c["op"] == "ST":
         return "ST %s %s %d %s" % (c["shape"], c["bo"], c["prefix"], " ".join(c["toks"]))
     if c["op"] == "HS":
@@ -276,6 +407,8 @@ def impl_line(c):
 
 
 def model_line(c):
+    if c["op"] == "EC":
+        return "EC %s %s %s %d %s" % (c["desc"], c["kind"], c["bo"], c["prefix"], " ".join(c["toks"]))
     if c["op"] in ("EN", "EO"):
         parts = impl_line(c).split(" ")
         parts[1] = c["desc"]
@@ -298,6 +431,23 @@ def make_cases(ctx, listing, thorough):
             cases.append({"op": "CV", "mode": mode, "bo": "le", "toks": ["d", str(bits)]})
         for tag, n in (("n", 0x8000), ("n", 0xFFFF), ("i", 0x80000000), ("i", 0xFFFFFFFF), ("x", 1 << 63), ("x", (1 << 64) - 1)):
             cases.append({"op": "CV", "mode": mode, "bo": "le", "toks": [tag, str(n)]})
+    # enums in element position: every container kind x byte order x prefix
+    cs1 = parse_desc(listing["E1"])
+    for kind in listing["kinds"].split(","):
+        t = parse_kind(kind)
+        for bo in ("le", "be"):
+            for prefix in range(16):
+                for _ in range(nval if thorough else 2):
+                    cases.append({"op": "EC", "kind": kind, "desc": listing["E1"], "bo": bo, "prefix": prefix,
+                                  "toks": gen_container(r, t, cs1)})
+    # several cases with one signature (the first answers); short signatures at and beyond the nesting limits
+    for name in ("E4", "E5"):
+        desc = listing[name]
+        for i, (kind, ty) in enumerate(parse_desc(desc)):
+            for bo in ("le", "be"):
+                for prefix in (range(16) if thorough else sorted(r.sample(range(16), 4))):
+                    cases.append({"op": "EN", "set": name, "desc": desc, "bo": bo, "prefix": prefix, "case": i,
+                                  "toks": gen_value(r, ty, sizes=(0, 1) if name == "E5" else (0, 1, 1, 2, 2, 3))})
     # enum cases whose signatures have 255 / 256 / 320 bytes: all three case shapes, all enum flavours
     desc3 = listing["E3"]
     for i, (kind, ty) in enumerate(parse_desc(desc3)):
@@ -372,7 +522,7 @@ def private_driver():
     raise vlib.BrokenTie("extracted c16 driver could not be started", last)
 
 
-MODELLED = ("ST", "HS", "EN", "EO")
+MODELLED = ("ST", "HS", "EN", "EO", "EC")
 
 
 def run_cases(exe, drv, cases):
@@ -425,13 +575,17 @@ def run(ctx):
                     "params conversion/constructor API, the borrowed *Ref flavours): 5 encodings x 4 readers (tuple, derived, get_param, get_param read "
                     "back through TryFrom/as_*/into_*); HS (%d) = a derived struct asked to read a body of another (or its own) signature; "
                     "EN (%d) = one enum case through typed Variant, derived enum, dbus_variant_sig!, dbus_variant_var! and the three Param variants: "
-                    "7 encodings x 6 readers, including enum E3 whose case signatures have 255, 256 and 320 bytes (beyond 255 all must refuse alike); "
+                    "8 encodings x 6 readers, including enum E3 whose case signatures have 255, 256 and 320 bytes "
+                    "(beyond 255 all must refuse alike), E4 with several cases of one signature (the first answers) and E5 with short signatures at and "
+                    "beyond the 32-level nesting limits (33 nested Vec / tuples: all must refuse alike), push_variant as an eighth encoding; "
+                    "EC (%d) = enum E1 of all three generators and params::Variant in element position of Vec, HashMap, tuples, Vec of tuples and a "
+                    "derived struct, against the Param tree of the same variants: encodings identical, pass validate(), every reader reads every encoding; "
                     "EO (%d) = a variant of a type outside the enum's cases between other parameters, read by the three enums; CV (%d) = every "
                     "TryFrom<&Base>/as_*/into_* on one Base built by From<T> or From<&T>/&str; CF (%d) = constructors/conversions that must refuse. "
                     "The conversions are the identity on the model's abstract value, so C/R are compared with the model's Param API and CV/CF with "
                     "the predicate only. %d cases in all this run (counted; the design's 'about 5,000' for the quick tier was an estimate). Values are boundary-biased; "
                     "maps have at most one entry. non-trivial = everything except CF and HS cases whose other type is not a struct; distinct = distinct case lines"
-                    % (nop.get("ST", 0), nop.get("HS", 0), nop.get("EN", 0), nop.get("EO", 0), nop.get("CV", 0), nop.get("CF", 0), len(cases)))
+                    % (nop.get("ST", 0), nop.get("HS", 0), nop.get("EN", 0), nop.get("EC", 0), nop.get("EO", 0), nop.get("CV", 0), nop.get("CF", 0), len(cases)))
         impl, model = run_cases(exe, drv, cases)
     finally:
         try:
@@ -451,6 +605,8 @@ def run(ctx):
             ctx.count("shape:" + c["shape"])
         elif c["op"] in ("EN", "EO"):
             ctx.count("set:" + c["set"])
+        elif c["op"] == "EC":
+            ctx.count("kind:" + c["kind"])
         why = predicate(c, li)
         agree = lm is None or agrees(c, li, lm)
         if why:
